@@ -48,6 +48,7 @@ var TrustedDoc = map[string]string{
  	"bufio.Scanner": "the reader holds a sequence of lines; Scan() returns true and advances iff a line is left and it is shorter than the maximum token size (65536 unless Buffer() raised it to at least its max argument); Text() is the line just passed; no line is 2^62 bytes long",
 	"strings.Fields": "no element of the result is empty",
 	"strings.Split(s, sep)": "for a literal non-empty sep: at least one element, and the first is sbefore(s, sep), the text before the first occurrence of sep (s itself if there is none)",
+	"strings.SplitN(s, sep, 1)": "with a non-empty separator and n = 1 the result is the one-element list [s]",
 	"strings.Cut": "before = sbefore(s, sep); after and found are uninterpreted functions of (s, sep)",
 	"strings.Join":          "uninterpreted deterministic function of (elements, length, separator)",
 	"fmt.Errorf":            "returns a non-nil error",
@@ -295,6 +296,11 @@ func (ex *Exec) libCall(st *State, fn *ssa.Function, args []Val, pos string) []O
 						ex.trust("strings.Split(s, sep)")
 						sb := ex.Ctx.Declare("sbefore", []string{"Str", "Str"}, "Str")
 						st.Assume(smt.Imp(smt.Neq(terms[1], "emptystr"), smt.And(smt.Ge(ln, "1"), smt.Eq(smt.Sel(rs.Arr, "0"), smt.App(sb, terms[0], terms[1])))))
+					}
+					if name == "strings.SplitN" && len(args) == 3 {
+						// SplitN(s, sep, 1) with a non-empty separator is [s]
+						ex.trust("strings.SplitN(s, sep, 1)")
+						st.Assume(smt.Imp(smt.And(smt.Neq(terms[1], "emptystr"), smt.Eq(terms[2], "1")), smt.And(smt.Eq(ln, "1"), smt.Eq(smt.Sel(rs.Arr, "0"), terms[0]))))
 					}
 					if name == "strings.Split" && len(args) == 2 && term(args[1]) == "emptystr" {
 						// Split(s, "") explodes s into UTF-8 sequences: every element is non-empty and
